@@ -64,7 +64,7 @@ def c17mi (docH : String) (res : List String) : Verdict :=
     | _ => vBad (joinToks res)
 
 def patternBytes (len seed : Nat) : Bytes :=
-  (List.range len).map fun i => UInt8.ofNat (((i * 31 + seed) % 2 ^ 64) ^^^ (i >>> 8))
+  (List.range len).map fun i => UInt8.ofNat ((((i + seed * 40503) % 2 ^ 64) * 2654435761 % 2 ^ 32) >>> 24)
 
 def c17create (args res : List String) : Verdict :=
   match args with
